@@ -11,3 +11,4 @@ INVARIANT NoDoubleCall
 INVARIANT OnlyMatching
 INVARIANT OrderWithinPacket
 INVARIANT IgnoreStops
+INVARIANT ReactionBetweenStages
